@@ -118,10 +118,19 @@ partial def tplOfSExp (names : List String) : GE.Codec.SExp → Option (Tpl TE)
     some (.loop (← teOfSExp names v) (← tplsOfSExps (names ++ [item, index]) ch))
   | .list (.atom "forkey" :: v :: .str key :: .str item :: .str index :: ch) => do
     some (.loopK (← teOfSExp names v) key (← tplsOfSExps (names ++ [item, index]) ch))
+  | .list [.atom "tref", v, .list (.atom "fields" :: fs), .list (.atom "cases" :: cs)] => do
+    let fields ← fs.mapM fun (a : GE.Codec.SExp) => match a with
+      | .list [.str n, e] => (teOfSExp names e).map fun te => (n, te)
+      | _ => none
+    some (.tref (← teOfSExp names v) fields (← tcasesOfSExps cs))
   | _ => none
 partial def tplsOfSExps (names : List String) : List GE.Codec.SExp → Option (Tpls TE)
   | [] => some .nil
   | x :: r => do some (.cons (← tplOfSExp names x) (← tplsOfSExps names r))
+partial def tcasesOfSExps : List GE.Codec.SExp → Option (TCases TE)
+  | [] => some .nil
+  | .list (.str name :: ch) :: r => do some (.cons name (← tplsOfSExps [] ch) (← tcasesOfSExps r))
+  | _ => none
 partial def branchesOfSExps (names : List String) : List GE.Codec.SExp → Option (Branches TE)
   | [] => some (.last false .nil)
   | [.list (.atom "else" :: ch)] => (tplsOfSExps names ch).map (.last true)
